@@ -263,7 +263,7 @@ func verifyFieldInvariants(c *core.Ctx, be *boundsEngine) {
 					return
 				}
 				r := core.FieldAddrRef(fa)
-				if r.Name != field || r.Struct == nil || r.Struct.Obj().Name() != inv.Type {
+				if r.Name != field || r.Struct == nil || core.StructName(r.Struct) != inv.Type {
 					return
 				}
 				n++
